@@ -170,7 +170,13 @@ func wellFormedLines(n int, name func(string) string) (lines []vLine, rows []str
 		}
 		nm := name("name")
 		lines = append(lines, vLine{d, nm})
-		rows = append(rows, verifRow("", 0, d, nm))
+		// the notation bytes are a literal prefix (canonical spelling), so that the rows can also be fed to the
+		// massive-mode splitter, which looks at the first byte of a row
+		pre := "- "
+		for k := uint(0); k < d; k++ {
+			pre = "  " + pre
+		}
+		rows = append(rows, verifRow(pre, 0, d, nm))
 		prev = d
 	}
 	return
